@@ -8,6 +8,7 @@ import gmg_lib as gl
 PID = "C01"
 LEVEL = "exploration"
 SLACK = 1.05
+ROUNDING_FLOOR = 1e-11
 AJ = {0: 0.5, 1: 0.66, 2: 0.4837, 3: 0.7081}
 GEOP = {0: (0.0, 0.0), 1: (0.3, 0.2), 2: (0.3, 1.4)}
 PROFILES = [(0, 0), (1, 0), (1, 1), (2, 0), (2, 1), (3, 0), (3, 1)]
@@ -117,9 +118,14 @@ def judge(kind, cfg, r):
         out.append(("nonfinite", "solution contains non-finite values"))
         return out
     if kind != "mode2":
-        if its >= maxit:
+        lastres = gl.num(r, "lastres")
+        # a request below the rounding level of f - A u (about 1e-12 absolute for these problems; it arises when a tight
+        # RELATIVE tolerance meets the small start residual of an FMG start vector) cannot be met by any solver
+        at_rounding_level = lastres is not None and lastres <= ROUNDING_FLOOR
+        if its >= maxit and not at_rounding_level:
             out.append(("no-convergence", "no convergence within %d iterations (last residual %s)" % (maxit, r.get("lastres"))))
-        if not (rho is not None and rho < 1.0):
+        # a solve that needs no iteration (the FMG start vector already meets a loose tolerance) has no reduction factor
+        if its >= 1 and not at_rounding_level and not (rho is not None and rho < 1.0):
             out.append(("reduction-factor", "mean residual reduction factor is %r (must be < 1)" % rho))
     if its < maxit:
         indep, indep0 = gl.num(r, "indep"), gl.num(r, "indep0")
